@@ -38,6 +38,7 @@ class GenRunner:
     """One real generator, advanced one `next()` at a time, recording events."""
 
     def __init__(self, defn, root, o, skip, data, cap=None):
+        self.defn, self.root = defn, root
         self.gen = defn.packet_generator(io.BytesIO(data), root_container_name=root, skip_header_bytes=skip, **opts_kw(o))
         self.events = []
         self.done = False
@@ -70,13 +71,35 @@ class GenRunner:
         elif item is not None:
             if isinstance(item, UnrecognizedPacketTypeError):
                 self.events.append("U " + xser.show_pkt(item.partial_data))
+                self.solo(item.partial_data, self.events[-1])
             elif isinstance(item, packets.CCSDSPacket):
                 self.events.append("P " + xser.show_pkt(item))
+                self.solo(item, self.events[-1])
             else:
                 self.events.append("R " + hx(bytes(item)))
             if len([e for e in self.events if e[0] in "PUR"]) > self.cap:
                 self.events.append("nonterm")
                 self.done = True
+
+    def solo(self, pkt, shown):
+        """The property's own reference: parsing the yielded packet's raw data on its own (twice, from the very raw-data
+        object the generator handed out) gives what the generator yielded."""
+        from space_packet_parser import packets
+        from space_packet_parser.exceptions import UnrecognizedPacketTypeError
+        for _ in range(2):
+            with warnings.catch_warnings():
+                warnings.simplefilter("ignore")
+                try:
+                    again = self.defn.parse_ccsds_packet(packets.CCSDSPacket(raw_data=pkt.raw_data),
+                                                         root_container_name=self.root)
+                    s = "P " + xser.show_pkt(again)
+                except UnrecognizedPacketTypeError as e:
+                    s = "U " + xser.show_pkt(e.partial_data)
+                except Exception as e:  # noqa: BLE001
+                    s = "E:" + canon_exc(e).replace(" ", "-")
+            if s != shown:
+                self.events.append("solo-parse-differs")
+                return
 
     def drain(self):
         while not self.done:
